@@ -161,7 +161,7 @@ class Scenario:
         # enter_room() with such a pair is opt-in per profile: on the unchanged library a refused enter_room() on a
         # namespace that has clients leaves an empty room behind (and with it the namespace's table for good), which
         # C11's residue probe reports -- reported to the integrator, not yet a recorded finding
-        self.stale_enter_p = profile.get('stale_enter_p', 0.0)
+        self.stale_enter_p = profile.get('stale_enter_p', self.stale_p if hasattr(self, 'stale_p') else 0.12)
 
     # ---- learn from what the server sent
     def learn(self, op, obs):
